@@ -6,7 +6,7 @@ From Coq Require Import List ZArith Bool.
 From LJT Require Import model.T81Spec model.T81Arith gen.GenAricom proofs.T81StuffProofs proofs.T81ParseProofs proofs.T81LenProofs
   proofs.T81BlockProofs proofs.T81ScanProofs proofs.T81HuffProofs proofs.T81WriterProofs proofs.T81WrittenProofs proofs.T81ParseInvProofs proofs.T81Examples
   proofs.T81ArithProofs proofs.T81QMProofs proofs.T81AricomProofs proofs.T81ArithExamples
-  proofs.T81ArithProofsIdeal proofs.T81ArithProofsBytes.
+  proofs.T81ArithProofsIdeal proofs.T81ArithProofsBytes proofs.T81ArithProofsScan.
 Import ListNotations.
 Local Open Scope Z_scope.
 
@@ -172,6 +172,15 @@ Theorem C04_qm_roundtrip_stats : forall st0 ds, stats_ok st0 ->
              qst Df = est (fold_left qm_encode ds (init_enc_st st0)).
 Proof. exact qm_roundtrip_st. Qed.
 Print Assumptions C04_qm_roundtrip_stats.
+
+(* (11) composition of (6) and (10): the arithmetic entropy layer of a whole scan -- F.1.4
+   binarisation, D.1 encoder and Flush per restart interval, then Initdec, D.2 decoder and F.2.4
+   procedures -- gives back every block, for any conditioning tables and any restart interval *)
+Theorem C04_arith_scan_codec : forall cs n per blocks,
+  Forall (ablocks_ok (repeat 0 n)) (intervals per blocks) ->
+  adec_intervals cs n (intervals per (map fst blocks)) (map (aenc_interval cs n) (intervals per blocks)) = Some blocks.
+Proof. exact adec_enc_scan. Qed.
+Print Assumptions C04_arith_scan_codec.
 
 Example C04_example_qm_roundtrip :
   qm_decode_list ex_decisions (qm_encode_all ex_decisions) = map snd ex_decisions /\
